@@ -1,4 +1,5 @@
 import Tickit.Proof.RBFlushSgr
+import Tickit.Proof.RBFlushScreen
 /-
   Proof/RBFlushSim.lean - C04, xterm-driver configuration: the simulation between the grid terminal (the meaning of the
   requests, `GridTerm.stepL` on a screen of `L` lines - what `flush_spec_screen` talks about) and the VT screen that reads
@@ -621,10 +622,11 @@ theorem wcwidth_range (cp : Nat) :
   repeat' split
   all_goals simp
 
-/-- The columns from `col` suffice for the characters, one after the other (no wrap). -/
+/-- The columns from `col` suffice for the characters of one or two columns, one after the other (no wrap). -/
 def Fits (cols : Int) : Int → List Nat → Prop
   | _, [] => True
-  | col, cp :: rest => col + Tickit.RB.Utf8.wcwidth cp ≤ cols ∧ Fits cols (col + Tickit.RB.Utf8.wcwidth cp) rest
+  | col, cp :: rest =>
+    (Tickit.RB.Utf8.wcwidth cp = 0 ∨ col + Tickit.RB.Utf8.wcwidth cp ≤ cols) ∧ Fits cols (col + Tickit.RB.Utf8.wcwidth cp) rest
 
 theorem putChL_pen (L : Int) (t : GridTerm) (c : Ch) : (t.putChL L c).pen = t.pen := by
   unfold GridTerm.putChL GridTerm.putGlyphL GridTerm.wrapL GridTerm.addZeroWidth
@@ -633,7 +635,8 @@ theorem putChL_pen (L : Int) (t : GridTerm) (c : Ch) : (t.putChL L c).pen = t.pe
 
 /-- One printable character with a width that fits on the line. -/
 theorem putCh_sim {caps : TermPen.Caps} {t0 t : GridTerm} {s0 s : XScreen} (h : Sim caps t0 s0 t s) (hcur : Cur t0 t s)
-    (cp : Nat) (hw0 : 0 ≤ Tickit.RB.Utf8.wcwidth cp) (hfit : t.col + Tickit.RB.Utf8.wcwidth cp ≤ t.cols) :
+    (cp : Nat) (hw0 : 0 ≤ Tickit.RB.Utf8.wcwidth cp)
+    (hfit : Tickit.RB.Utf8.wcwidth cp = 0 ∨ t.col + Tickit.RB.Utf8.wcwidth cp ≤ t.cols) :
     Sim caps t0 s0 (t.putChL s.lines (chOf cp)) (s.putCp cp) ∧ Cur t0 (t.putChL s.lines (chOf cp)) (s.putCp cp) ∧
     (s.putCp cp).lines = s.lines ∧ (t.putChL s.lines (chOf cp)).col = t.col + Tickit.RB.Utf8.wcwidth cp ∧
     (t.putChL s.lines (chOf cp)).cols = t.cols := by
@@ -883,5 +886,128 @@ theorem sim_xcellOK {caps : TermPen.Caps} {t0 t : GridTerm} {s0 s : XScreen} (h 
         unfold attrsShow
         rw [h2]
         simpa using h3
+
+/-! ### `RunOK` from the calmness of the requests (`flush_spec_screen`) and facts about the requests alone -/
+
+theorem chOf_width (cp : Nat) (h : 0 ≤ Tickit.RB.Utf8.wcwidth cp) : (chOf cp).width = Tickit.RB.Utf8.wcwidth cp := by
+  have hn : ¬ Tickit.RB.Utf8.wcwidth cp < 0 := by omega
+  simp [chOf, hn]
+
+/-- Characters printed without the cursor leaving its line fit on the line. -/
+theorem fits_of_line (cps : List Nat) : ∀ (t : GridTerm), (∀ cp ∈ cps, 0 ≤ Tickit.RB.Utf8.wcwidth cp) →
+    (t.putChs (cps.map chOf)).line = t.line → Fits t.cols t.col cps := by
+  induction cps with
+  | nil => intro _ _ _; exact trivial
+  | cons cp rest ihr =>
+    intro t hw hline
+    have hw0 := hw cp (by simp)
+    have hwd := chOf_width cp hw0
+    have h1 := GridTerm.putCh_line_le t (chOf cp)
+    have h2 := GridTerm.putChs_line_le (rest.map chOf) (t.putCh (chOf cp))
+    simp only [List.map_cons, GridTerm.putChs, List.foldl_cons] at hline h2
+    have hl1 : (t.putCh (chOf cp)).line = t.line := by omega
+    have hrest : ((t.putCh (chOf cp)).putChs (rest.map chOf)).line = (t.putCh (chOf cp)).line := by
+      simp only [GridTerm.putChs]; omega
+    by_cases hz : Tickit.RB.Utf8.wcwidth cp = 0
+    · have e : t.putCh (chOf cp) = t.addZeroWidth (chOf cp).bytes := by simp [GridTerm.putCh, hwd, hz]
+      have hc : (t.putCh (chOf cp)).col = t.col ∧ (t.putCh (chOf cp)).cols = t.cols := by
+        rw [e]; unfold GridTerm.addZeroWidth; split <;> exact ⟨rfl, rfl⟩
+      have ih := ihr (t.putCh (chOf cp)) (fun x hx => hw x (by simp [hx])) hrest
+      rw [hc.1, hc.2] at ih
+      exact ⟨Or.inl hz, by rw [hz, Int.add_zero]; exact ih⟩
+    · have e : t.putCh (chOf cp) = t.putGlyph (chOf cp).bytes (Tickit.RB.Utf8.wcwidth cp) := by
+        simp [GridTerm.putCh, hwd, hz]
+      have hl2 := hl1
+      rw [e, GridTerm.putGlyph_line] at hl2
+      have hfit : ¬ t.col + Tickit.RB.Utf8.wcwidth cp > t.cols := by
+        intro hgt; rw [if_pos hgt] at hl2; omega
+      have hc : (t.putCh (chOf cp)).col = t.col + Tickit.RB.Utf8.wcwidth cp ∧ (t.putCh (chOf cp)).cols = t.cols := by
+        rw [e]; unfold GridTerm.putGlyph; rw [if_neg hfit]; exact ⟨rfl, rfl⟩
+      have ih := ihr (t.putCh (chOf cp)) (fun x hx => hw x (by simp [hx])) hrest
+      rw [hc.1, hc.2] at ih
+      exact ⟨Or.inr (by omega), ih⟩
+
+/-- What the simulation asks of the requests by themselves (no terminal involved): `moved` - a goto has been seen,
+    `rv` - reverse video in `tt->pen` (after a setpen: what its pen says).  Gotos at non-negative columns, pens the driver
+    can say, erases of at least one cell, not `TICKIT_NO`, after a goto and outside reverse video, print requests of at
+    least one byte, after a goto, whose bytes are well-formed UTF-8 of printable code points that have a width. -/
+def StaticOK (caps : TermPen.Caps) : Bool → Bool → List Req → Prop
+  | _, _, [] => True
+  | _, rv, .goto _ c :: rs => 0 ≤ c ∧ StaticOK caps true rv rs
+  | moved, _, .setpen p :: rs => PenEncodable caps p ∧ StaticOK caps moved (Pen.getBool p.reverse) rs
+  | moved, rv, .erasech n m :: rs => (moved = true ∧ rv = false ∧ 1 ≤ n ∧ m ≠ .no) ∧ StaticOK caps moved rv rs
+  | moved, rv, .print bs start len :: rs =>
+    (moved = true ∧ len ≠ 0 ∧ ∃ cps : List Nat, (∀ cp ∈ cps, Printable cp ∧ 0 ≤ Tickit.RB.Utf8.wcwidth cp) ∧
+      (bs.drop start).take len = cps.flatMap stdUtf8) ∧ StaticOK caps moved rv rs
+
+theorem getBool_setAttr (t p : Option Bool) :
+    Pen.getBool (setAttr Pen.equivBool Pen.getBool t p).1 = Pen.getBool p := by
+  unfold setAttr
+  split
+  · rename_i h
+    simp only [Bool.and_eq_true, Pen.equivBool, beq_iff_eq] at h
+    exact h.2
+  · rfl
+
+theorem foldl_putChL_pen (L : Int) : ∀ (cs : List Ch) (t : GridTerm), (cs.foldl (GridTerm.putChL L) t).pen = t.pen
+  | [], _ => rfl
+  | c :: cs, t => by
+    simp only [List.foldl_cons]
+    rw [foldl_putChL_pen L cs, putChL_pen]
+
+/-- **runOK_of_calm**: requests that are calm on the grid terminal (`Calm`: what `flush_spec_screen` proves of a flush
+    whose content lies within the screen - gotos to lines of the screen, no print leaves its line) and satisfy
+    `StaticOK` are ones the simulation covers. -/
+theorem runOK_of_calm (caps : TermPen.Caps) (L : Int) : ∀ (reqs : List Req) (t : GridTerm) (moved : Bool),
+    Calm L t reqs → StaticOK caps moved (Pen.getBool t.pen.reverse) reqs → RunOK caps L moved t reqs
+  | [], _, _, _, _ => trivial
+  | r :: rs, t, moved, hcalm, hst => by
+    obtain ⟨hc1, hc2⟩ := hcalm
+    have hstep := GridTerm.stepL_eq L t r hc1
+    cases r with
+    | goto l c =>
+      obtain ⟨h1, h2⟩ := hst
+      simp only at hc1
+      refine ⟨⟨hc1.1, h1⟩, ?_⟩
+      rw [hstep]
+      exact runOK_of_calm caps L rs _ _ hc2 h2
+    | setpen p =>
+      obtain ⟨h1, h2⟩ := hst
+      refine ⟨h1, ?_⟩
+      rw [hstep]
+      refine runOK_of_calm caps L rs _ _ hc2 ?_
+      have : Pen.getBool (t.step (.setpen p)).pen.reverse = Pen.getBool p.reverse := getBool_setAttr _ _
+      rw [this]
+      exact h2
+    | erasech n m =>
+      obtain ⟨⟨h1, h2, h3, h4⟩, h5⟩ := hst
+      refine ⟨⟨h1, h3, h4, h2⟩, ?_⟩
+      rw [hstep]
+      refine runOK_of_calm caps L rs _ _ hc2 ?_
+      have : (t.step (.erasech n m)).pen = t.pen := (GT.erasech_fields t n m h3).2.2.1
+      rw [this]
+      exact h5
+    | print bs start len =>
+      obtain ⟨⟨h1, h2, cps, h3, h4⟩, h5⟩ := hst
+      have hb : GridTerm.reqBytes t.viaWriteStr bs start len = cps.flatMap stdUtf8 := by
+        simp [GridTerm.reqBytes, h2, h4]
+      have hrange : ∀ cp ∈ cps, 0 < cp ∧ cp < 0x200000 := fun cp hcp => by
+        obtain ⟨⟨p1, p2, p3⟩, _⟩ := h3 cp hcp
+        exact ⟨by omega, by omega⟩
+      have hdec := termDecode_flatMap cps [] ((cps.flatMap stdUtf8).length + 1) hrange
+        (by have := length_le_flatMap_stdUtf8 cps; omega)
+      simp only [List.nil_append, List.length_nil] at hdec
+      have estep : t.step (.print bs start len) = t.putChs (cps.map chOf) := by
+        simp only [GridTerm.step, hb, GridTerm.printBytes, hdec]
+      simp only at hc1
+      rw [estep] at hc1
+      refine ⟨⟨h1, h2, cps, h3, h4, fits_of_line cps t (fun cp hcp => (h3 cp hcp).2) hc1⟩, ?_⟩
+      have hpen : (t.stepL L (.print bs start len)).pen = t.pen := by
+        simp only [GridTerm.stepL, GridTerm.printBytesL, GridTerm.putChsL]
+        exact foldl_putChL_pen L _ t
+      rw [hstep]
+      refine runOK_of_calm caps L rs _ _ hc2 ?_
+      rw [← hstep, hpen]
+      exact h5
 
 end Tickit.RBFlushX
